@@ -92,6 +92,24 @@ func (e *OpEngine) RunBody(key, label string, maxPaths int, body func()) {
 		e.Paths++
 		done++
 	})
+	if err == nil && done == 0 && e.M.Cuts-cuts0 > 0 {
+		err = fmt.Errorf("loop whose bound is a symbolic integer: every path iterates it more than 3 times")
+	}
+	if err != nil {
+		// same fallback as for operation instances: decide on concrete sizes
+		err = e.concreteFallback(err, func() error {
+			_, err2 := e.M.Explore(maxPaths, func() {
+				e.Begin()
+				sym.ActiveFacts = nil
+				e.curMethod, e.curExpanding = key, false
+				defer func() { sym.ActiveFacts = nil }()
+				body()
+				e.Paths++
+				done++
+			})
+			return err2
+		})
+	}
 	if err != nil {
 		e.undecided("interp", key, "unsupported", "", fmt.Sprintf("%v [instance %s]", err, label))
 		return
